@@ -185,6 +185,12 @@ func (c *SpecCtx) eval(x Expr) (Val, types.Type) {
 		case "false":
 			return tFalse, types.Typ[types.Bool]
 		}
+		if c.atReturn {
+			// in postconditions parameters denote their entry values
+			if b, ok := c.vars[x.Name]; ok {
+				return b.v, b.t
+			}
+		}
 		if c.f != nil && c.hdrBlock != nil {
 			if _, bound := c.bound[x.Name]; !bound {
 				if v, t, ok := c.f.resolveLocal(x.Name, c); ok {
